@@ -380,7 +380,10 @@ class Qubit:
 
         After freeing, the underlying physical qubit can be used to store another state.
         """
+        self.assert_active()
         self.builder._build_cmds_qfree(qubit_id=self.qubit_id)
+        # The virtual ID can now be used by another qubit
+        self.active = False
 
 
 class FutureQubit(Qubit):
